@@ -11,6 +11,9 @@ package main
 //      between requests), compared with the model + model-free oracle
 //   3  end-to-end, oracle only (overlapping rule sets / unclean rewrite results)
 //   4  concurrent AddTarget/RemoveTarget/Next from several goroutines, oracle only
+//   6  balancer operation sequence like kind 0, but some Next calls are overlapped from inside: the
+//      echo context handed to Next runs an AddTarget/RemoveTarget/Next of another goroutine at its
+//      n-th access; compared with the model in the linearization order that was observed
 //   5  end-to-end like kind 1, but echo runs behind a real http.Server (httptest.NewServer(e)) and is
 //      called over TCP: the request body is net/http's server body (known finding F16); websocket
 //      upgrades over a raw TCP connection (the upstream answers 101 and exchanges bytes through the
@@ -29,6 +32,7 @@ import (
 	"net/http/httptest"
 	"net/url"
 	"strings"
+	"time"
 
 	"github.com/labstack/echo/v4"
 	"github.com/labstack/echo/v4/middleware"
@@ -44,6 +48,14 @@ type c19Op struct {
 	Name string `json:"name,omitempty"`
 	URL  int    `json:"url,omitempty"`
 	Ctx  int    `json:"ctx,omitempty"`
+	// kind 6, Next only: while this Next is running — at its At-th access (Get or Set) to the echo
+	// context — another goroutine issues Op on the same balancer
+	Hook *c19Hook `json:"hook,omitempty"`
+}
+
+type c19Hook struct {
+	At int   `json:"at"`
+	Op c19Op `json:"op"`
 }
 
 type c19Rule struct {
@@ -71,6 +83,9 @@ type c19Req struct {
 	// TargetProvider script, by NextTarget call of this request: 0 = a target, -1 = a plain error,
 	// n > 0 = *echo.HTTPError with code n
 	ProvErr []int `json:"prov_err,omitempty"`
+	// the body is sent with unknown length (Request.ContentLength -1): a reader net/http cannot size
+	// in-process, a chunked upload through the real server
+	Chunked bool `json:"chunked,omitempty"`
 	// 1: the request goes to the second echo instance (c19Case.TwoInst)
 	Inst     int         `json:"inst,omitempty"`
 	Headers  [][2]string `json:"headers,omitempty"`
@@ -217,7 +232,45 @@ func c19Unfair(counts map[*middleware.ProxyTarget]int, cur []*middleware.ProxyTa
 	return ""
 }
 
-// ---------------- kind 0: balancer op sequences ----------------
+// ---------------- kinds 0 and 6: balancer op sequences ----------------
+
+// echo.Context that runs a callback at its n-th access (Get or Set) — the only window through
+// which code running inside Balancer.Next can be interleaved deterministically with another call
+type c19HookCtx struct {
+	echo.Context
+	n, at int
+	fire  func()
+}
+
+func (h *c19HookCtx) access() {
+	h.n++
+	if h.n == h.at && h.fire != nil {
+		f := h.fire
+		h.fire = nil
+		f()
+	}
+}
+func (h *c19HookCtx) Get(key string) interface{} { h.access(); return h.Context.Get(key) }
+func (h *c19HookCtx) Set(key string, val interface{}) {
+	h.Context.Set(key, val)
+	h.access()
+}
+
+// how long a Next that is inside the balancer waits for the intruding call: on a balancer whose
+// operations are atomic the intruder CANNOT finish before Next has returned (it waits for the
+// lock), so the length of this wait can never cause a false alarm, only a missed interleaving
+const c19HookWait = 2 * time.Millisecond
+
+// at most this many overlapping pairs of one case are tried in both orders (2^n model lines)
+const c19MaxSwaps = 10
+
+// raw outcome of one real balancer call
+type c19Raw struct {
+	ok       bool
+	t        *middleware.ProxyTarget
+	pt       *middleware.ProxyTarget // target handed to AddTarget
+	panicked any
+}
 
 func c19RunOps(c *c19Case) (res Result) {
 	sh := &c19Shadow{id: map[*middleware.ProxyTarget]c19Target{}}
@@ -235,8 +288,14 @@ func c19RunOps(c *c19Case) (res Result) {
 	ctxs := map[int]echo.Context{}
 	used := map[int]bool{}
 
-	ops := []string{"0", wBool(c.RR), c19EncTargets(c.Init), wInt(len(c.Ops))}
-	var obs []string
+	// one entry per real call, in accounting order: tokens for the model line and the observation;
+	// swap = this call and the next one overlapped, so the model may take them in either order
+	type c19OpEv struct {
+		o, b []string
+		swap bool
+	}
+	var evs []c19OpEv
+	var ops, obs []string // tokens of the call being accounted
 	oracle := ""
 	fail := func(i int, msg string) {
 		if oracle == "" {
@@ -248,95 +307,241 @@ func c19RunOps(c *c19Case) (res Result) {
 	resetWindow := func() { window = map[*middleware.ProxyTarget]int{} }
 	removed, retried, wrapped := false, false, false
 
-	for i, op := range c.Ops {
-		func() {
-			defer func() {
-				if r := recover(); r != nil {
-					obs = append(obs, "2")
-					fail(i, fmt.Sprintf("panic: %v", r))
-					tagset["panic"] = true
-				}
-			}()
+	ctxOf := func(id int) echo.Context {
+		ctx, ok := ctxs[id]
+		if !ok {
+			ctx = e.NewContext(httptest.NewRequest(http.MethodGet, "/", nil), httptest.NewRecorder())
+			ctxs[id] = ctx
+		}
+		return ctx
+	}
+	// the real call (may run on another goroutine: touches nothing but the balancer and the result)
+	call := func(op c19Op, ctx echo.Context) (raw c19Raw) {
+		defer func() { raw.panicked = recover() }()
+		switch op.K {
+		case 0:
+			u, _ := url.Parse(fmt.Sprintf("http://h%d.test", op.URL))
+			raw.pt = &middleware.ProxyTarget{Name: op.Name, URL: u}
+			raw.ok = bal.AddTarget(raw.pt)
+		case 1:
+			raw.ok = bal.RemoveTarget(op.Name)
+		case 2:
+			raw.t = bal.Next(ctx)
+		}
+		return raw
+	}
+	// bookkeeping in linearization order: model line, observation, shadow, oracle.  during: the
+	// targets that were current when an overlapping Next started (nil = no overlap)
+	account := func(i int, op c19Op, raw c19Raw, during []*middleware.ProxyTarget) {
+		ops, obs = nil, nil
+		defer func() { evs = append(evs, c19OpEv{o: ops, b: obs}) }()
+		if raw.panicked != nil {
 			switch op.K {
 			case 0:
-				u, _ := url.Parse(fmt.Sprintf("http://h%d.test", op.URL))
-				pt := &middleware.ProxyTarget{Name: op.Name, URL: u}
-				sh.id[pt] = c19Target{op.Name, op.URL}
 				ops = append(ops, "0", wStr(op.Name), wInt(op.URL))
-				existed := sh.has(op.Name)
-				ok := bal.AddTarget(pt)
-				obs = append(obs, wBool(ok))
-				if ok == existed {
-					fail(i, fmt.Sprintf("AddTarget(%q) returned %v although a target of that name existed=%v", op.Name, ok, existed))
-				}
-				if ok {
-					sh.cur = append(sh.cur, pt)
-					resetWindow()
-					tagset["add-ok"] = true
-				} else {
-					tagset["add-dup"] = true
-				}
 			case 1:
 				ops = append(ops, "1", wStr(op.Name))
-				existed := sh.has(op.Name)
-				ok := bal.RemoveTarget(op.Name)
-				obs = append(obs, wBool(ok))
-				if ok != existed {
-					fail(i, fmt.Sprintf("RemoveTarget(%q) returned %v although a target of that name existed=%v", op.Name, ok, existed))
-				}
-				if ok {
-					sh.remove(op.Name)
-					resetWindow()
-					removed = true
-					tagset["remove-ok"] = true
-				} else {
-					tagset["remove-miss"] = true
-				}
 			case 2:
-				ctx, ok := ctxs[op.Ctx]
-				if !ok {
-					ctx = e.NewContext(httptest.NewRequest(http.MethodGet, "/", nil), httptest.NewRecorder())
-					ctxs[op.Ctx] = ctx
-				}
-				t := bal.Next(ctx)
-				hint := "0"
-				if !c.RR && t != nil {
-					hint = "1 " + wStr(t.Name)
-				}
-				ops = append(ops, "2", wInt(op.Ctx), hint)
-				obs = append(obs, c19EncPick(sh, t))
-				if t == nil {
-					tagset["next-nil"] = true
-					if len(sh.cur) != 0 {
-						fail(i, "Next returned nil although the balancer has targets")
+				ops = append(ops, "2", wInt(op.Ctx), "0")
+			}
+			obs = append(obs, "2")
+			fail(i, fmt.Sprintf("panic: %v", raw.panicked))
+			tagset["panic"] = true
+			return
+		}
+		switch op.K {
+		case 0:
+			sh.id[raw.pt] = c19Target{op.Name, op.URL}
+			ops = append(ops, "0", wStr(op.Name), wInt(op.URL))
+			existed := sh.has(op.Name)
+			obs = append(obs, wBool(raw.ok))
+			if raw.ok == existed {
+				fail(i, fmt.Sprintf("AddTarget(%q) returned %v although a target of that name existed=%v", op.Name, raw.ok, existed))
+			}
+			if raw.ok {
+				sh.cur = append(sh.cur, raw.pt)
+				resetWindow()
+				tagset["add-ok"] = true
+			} else {
+				tagset["add-dup"] = true
+			}
+		case 1:
+			ops = append(ops, "1", wStr(op.Name))
+			existed := sh.has(op.Name)
+			obs = append(obs, wBool(raw.ok))
+			if raw.ok != existed {
+				fail(i, fmt.Sprintf("RemoveTarget(%q) returned %v although a target of that name existed=%v", op.Name, raw.ok, existed))
+			}
+			if raw.ok {
+				sh.remove(op.Name)
+				resetWindow()
+				removed = true
+				tagset["remove-ok"] = true
+			} else {
+				tagset["remove-miss"] = true
+			}
+		case 2:
+			t := raw.t
+			hint := "0"
+			if !c.RR && t != nil {
+				hint = "1 " + wStr(t.Name)
+			}
+			ops = append(ops, "2", wInt(op.Ctx), hint)
+			obs = append(obs, c19EncPick(sh, t))
+			// a Next that overlapped another call: the list it may have seen is the one before or the
+			// one after that call
+			nonEmpty := len(sh.cur) != 0
+			member := t != nil && sh.member(t)
+			if during != nil {
+				nonEmpty = nonEmpty && len(during) != 0
+				for _, x := range during {
+					if x == t {
+						member = true
 					}
-				} else {
-					if len(sh.cur) == 0 {
-						fail(i, "Next returned a target although all were removed")
-					} else if !sh.member(t) {
-						fail(i, fmt.Sprintf("Next returned %q which is not a current target (removed earlier or never added)", t.Name))
-					}
-					if c.RR {
-						if !used[op.Ctx] {
-							window[t]++
-							if msg := c19Unfair(window, sh.cur); msg != "" {
-								fail(i, msg)
-							}
-							if len(sh.cur) >= 2 && sh.pos(t) == 0 {
-								wrapped = true
-							}
-						} else if len(sh.cur) >= 2 {
-							retried = true
-							tagset["next-retry"] = true
-						}
-					}
-				}
-				// the context carries a last index only if Next ran on it with >= 2 targets
-				if len(sh.cur) >= 2 {
-					used[op.Ctx] = true
 				}
 			}
-		}()
+			if t == nil {
+				tagset["next-nil"] = true
+				if nonEmpty {
+					fail(i, "Next returned nil although the balancer has targets")
+				}
+			} else {
+				if len(sh.cur) == 0 && during == nil {
+					fail(i, "Next returned a target although all were removed")
+				} else if !member {
+					fail(i, fmt.Sprintf("Next returned %q which is not a current target (removed earlier or never added)", t.Name))
+				}
+				if c.RR {
+					if !used[op.Ctx] {
+						window[t]++
+						if msg := c19Unfair(window, sh.cur); msg != "" && during == nil {
+							fail(i, msg)
+						}
+						if len(sh.cur) >= 2 && sh.pos(t) == 0 {
+							wrapped = true
+						}
+					} else if len(sh.cur) >= 2 {
+						retried = true
+						tagset["next-retry"] = true
+					}
+				}
+			}
+			// the context carries a last index only if Next ran on it with >= 2 targets
+			if len(sh.cur) >= 2 {
+				used[op.Ctx] = true
+			}
+		}
+	}
+
+	for i, op := range c.Ops {
+		if op.K != 2 || op.Hook == nil || c.Kind != 6 {
+			account(i, op, call(op, ctxOf(op.Ctx)), nil)
+			continue
+		}
+		// ---- a Next with an intruder: Hook.Op is issued from another goroutine while Next is inside
+		intr := op.Hook.Op
+		intr.Hook = nil
+		if intr.K == 2 && intr.Ctx == op.Ctx {
+			intr.Ctx = op.Ctx + 1000 // two goroutines never share an echo context
+		}
+		ictx := ctxOf(intr.Ctx)
+		before := append([]*middleware.ProxyTarget{}, sh.cur...)
+		var iraw c19Raw
+		done := make(chan struct{})
+		fired, inside := false, false
+		hc := &c19HookCtx{Context: ctxOf(op.Ctx), at: op.Hook.At}
+		hc.fire = func() {
+			fired = true
+			go func() {
+				iraw = call(intr, ictx)
+				close(done)
+			}()
+			select {
+			case <-done:
+				inside = true // the intruder ran to completion while Next was between two context accesses
+			case <-time.After(c19HookWait):
+			}
+		}
+		raw := call(op, hc)
+		switch {
+		case !fired:
+			// Next did not touch the context that often: plain sequential order
+			account(i, op, raw, nil)
+			account(i, intr, call(intr, ictx), nil)
+		case inside:
+			// The intruder ran to completion between two context accesses of Next.  The two calls
+			// overlap, so either order is a legal linearization (a Next that touches the context
+			// outside its critical section is still atomic): which one is decided at the end, over the
+			// whole history.  Bookkeeping order: Next first; the oracle gets both lists it may have seen.
+			tagset["hook-intruder-inside"] = true
+			after := append([]*middleware.ProxyTarget{}, before...)
+			switch {
+			case iraw.panicked != nil || !iraw.ok:
+			case intr.K == 0:
+				after = append(after, iraw.pt)
+			case intr.K == 1:
+				for k, x := range after {
+					if x.Name == intr.Name {
+						after = append(after[:k], after[k+1:]...)
+						break
+					}
+				}
+			}
+			account(i, op, raw, after)
+			account(i, intr, iraw, nil)
+			evs[len(evs)-2].swap = true
+		default:
+			<-done
+			tagset["hook-intruder-waited"] = true
+			account(i, op, raw, nil)
+			account(i, intr, iraw, nil)
+		}
+	}
+	// model line and observation.  With overlapping pairs: the first assignment of orders under which
+	// the model reproduces the whole observation (linearizability = SOME order explains the history);
+	// if there is none the plain order is reported and the comparison fails.
+	head := []string{"0", wBool(c.RR), c19EncTargets(c.Init), wInt(len(evs))}
+	build := func(mask int) (string, string) {
+		lo, bo := append([]string(nil), head...), []string(nil)
+		bit := 0
+		for k := 0; k < len(evs); k++ {
+			if evs[k].swap && k+1 < len(evs) && bit < c19MaxSwaps {
+				first, second := evs[k], evs[k+1]
+				if mask>>bit&1 == 1 {
+					first, second = second, first
+				}
+				bit++
+				lo = append(append(lo, first.o...), second.o...)
+				bo = append(append(bo, first.b...), second.b...)
+				k++
+				continue
+			}
+			lo = append(lo, evs[k].o...)
+			bo = append(bo, evs[k].b...)
+		}
+		return strings.Join(lo, " "), strings.Join(bo, " ")
+	}
+	nSwap := 0
+	for _, ev := range evs {
+		if ev.swap && nSwap < c19MaxSwaps {
+			nSwap++
+		}
+	}
+	opsLine, obsLine := build(0)
+	if nSwap > 0 {
+		var lines, wants []string
+		for mask := 0; mask < 1<<nSwap; mask++ {
+			l, w := build(mask)
+			lines, wants = append(lines, l), append(wants, w)
+		}
+		if got, err := runModel("C19", lines); err == nil {
+			for k := range lines {
+				if got[k] == wants[k] {
+					opsLine, obsLine = lines[k], wants[k]
+					break
+				}
+			}
+		}
 	}
 	var tags []string
 	for t := range tagset {
@@ -347,7 +552,10 @@ func c19RunOps(c *c19Case) (res Result) {
 	} else {
 		tags = append(tags, "ops-random")
 	}
-	return Result{Ops: strings.Join(ops, " "), Obs: strings.Join(obs, " "), Oracle: oracle, Tags: tags,
+	if c.Kind == 6 {
+		tags = append(tags, "ops-hooked")
+	}
+	return Result{Ops: opsLine, Obs: obsLine, Oracle: oracle, Tags: tags,
 		Nontrivial: removed && (retried || !c.RR) && (wrapped || !c.RR)}
 }
 
@@ -356,7 +564,7 @@ func c19RunOps(c *c19Case) (res Result) {
 func c19Run(ci any) Result {
 	c := ci.(*c19Case)
 	switch c.Kind {
-	case 0:
+	case 0, 6:
 		return c19RunOps(c)
 	case 1, 3, 5:
 		return c19RunE2E(c)
@@ -367,9 +575,9 @@ func c19Run(ci any) Result {
 }
 
 func c19Gen(r *rand.Rand, tier string) []any {
-	nOps, nE2E, nWeird, nConc, nReal := 4000, 900, 60, 20, 120
+	nOps, nE2E, nWeird, nConc, nReal, nHook := 4000, 900, 60, 40, 120, 250
 	if tier == "thorough" {
-		nOps, nE2E, nWeird, nConc, nReal = 150000, 30000, 2000, 600, 4000
+		nOps, nE2E, nWeird, nConc, nReal, nHook = 150000, 30000, 2000, 1200, 4000, 4000
 	}
 	var out []any
 	for i := 0; i < nOps; i++ {
@@ -381,6 +589,9 @@ func c19Gen(r *rand.Rand, tier string) []any {
 	for i := 0; i < nWeird; i++ {
 		out = append(out, c19GenE2E(r, tier, true))
 	}
+	for i := 0; i < nHook; i++ { // before kind 4: its failures replay deterministically
+		out = append(out, c19GenHooked(r, tier))
+	}
 	for i := 0; i < nConc; i++ {
 		out = append(out, c19GenConc(r, tier))
 	}
@@ -388,6 +599,52 @@ func c19Gen(r *rand.Rand, tier string) []any {
 		out = append(out, c19GenReal(r, tier))
 	}
 	return out
+}
+
+// kind 6: round-robin op sequences in which some Next calls are overlapped, from inside (through
+// the echo context they touch), by an AddTarget / RemoveTarget / Next of another goroutine
+func c19GenHooked(r *rand.Rand, tier string) *c19Case {
+	c := &c19Case{Kind: 6, RR: r.Intn(10) != 0}
+	names := []string{"a", "b", "c", "d", "e", "f"}
+	nInit := 2 + r.Intn(4)
+	for i := 0; i < nInit; i++ {
+		c.Init = append(c.Init, c19Target{names[i], r.Intn(6)})
+	}
+	nOps := 2 + r.Intn(14)
+	if tier == "thorough" && r.Intn(4) == 0 {
+		nOps = 10 + r.Intn(40)
+	}
+	nctx, nHooks := 0, 0
+	side := func() c19Op {
+		switch r.Intn(4) {
+		case 0:
+			return c19Op{K: 0, Name: names[r.Intn(len(names))], URL: r.Intn(6)}
+		case 1:
+			return c19Op{K: 2, Ctx: 500 + r.Intn(3)}
+		}
+		return c19Op{K: 1, Name: names[r.Intn(len(names))]}
+	}
+	for i := 0; i < nOps; i++ {
+		switch k := r.Intn(8); {
+		case k == 0:
+			c.Ops = append(c.Ops, c19Op{K: 0, Name: names[r.Intn(len(names))], URL: r.Intn(6)})
+		case k == 1:
+			c.Ops = append(c.Ops, c19Op{K: 1, Name: names[r.Intn(len(names))]})
+		default:
+			op := c19Op{K: 2, Ctx: nctx}
+			if nctx > 0 && r.Intn(4) == 0 {
+				op.Ctx = r.Intn(nctx) // a retry
+			} else {
+				nctx++
+			}
+			if r.Intn(2) == 0 && nHooks < c19MaxSwaps {
+				op.Hook = &c19Hook{At: 1 + r.Intn(3), Op: side()}
+				nHooks++
+			}
+			c.Ops = append(c.Ops, op)
+		}
+	}
+	return c
 }
 
 var c19Names = []string{"a", "b", "c", "d", "e", "f", "A", "", "a ", "ab"}
@@ -445,11 +702,19 @@ func c19Shrink(ci any) []any {
 	c := ci.(*c19Case)
 	var out []any
 	switch c.Kind {
-	case 0:
+	case 0, 6:
 		for i := range c.Ops {
 			d := *c
 			d.Ops = append(append([]c19Op(nil), c.Ops[:i]...), c.Ops[i+1:]...)
 			out = append(out, &d)
+		}
+		for i := range c.Ops {
+			if c.Ops[i].Hook != nil {
+				d := *c
+				d.Ops = append([]c19Op(nil), c.Ops...)
+				d.Ops[i].Hook = nil
+				out = append(out, &d)
+			}
 		}
 		for i := range c.Init {
 			d := *c
@@ -482,6 +747,8 @@ func init() {
 		ID: "C19",
 		Rule: "kind 0: random AddTarget/RemoveTarget/Next op sequences (≤40 ops quick, ≤120 thorough; 0-5(8) initial targets; names from a small pool incl. empty, case and space look-alikes, rare duplicate initial names; Next with a fresh context = first-time pick, with a used context = retry) on NewRoundRobinBalancer (3/4) and NewRandomBalancer (1/4); " +
 			"kind 1: end-to-end scenarios through e.ServeHTTP + ProxyWithConfig with 0-4 targets over 4 instrumented upstream servers / refused loopback ports, RetryCount -1..3, 0-3 non-overlapping glob rewrite rules, 1-10 steps (requests with methods, encoded paths, queries, header sets, bodies, cancelled client contexts; AddTarget/RemoveTarget between requests); kind 3: same, oracle only (overlapping rules, unclean rewrite results); kind 4: concurrent op scripts (2-6 goroutines, unique names, call intervals on a logical clock); kind 5: kind-1 scenarios with echo behind a real http.Server (request bodies are net/http server bodies; aimed at retry-with-body, F16; 1/5 of the requests are websocket upgrades over a raw TCP connection with payload in both directions; absolute-form targets through a proxy-style client); " +
+			"kind 6 (250 quick / 4000 thorough): round-robin op sequences (2-5 distinct targets, 2-15 ops, up to 50 thorough) in which half of the Next calls are overlapped from inside: the echo.Context handed to Next issues an AddTarget / RemoveTarget / Next (other context) from a second goroutine at its 1st-3rd access and waits 2 ms for it; the calls are handed to the model in an order under which it reproduces the whole observation (both orders of every overlapping pair are tried), the oracle accepts for the overlapped Next a member of the list before or after the intruder and nil only if one of the two lists is empty; kind 4 is half random scripts, half removal storms (24-63 targets, 140 thorough, 4-8 goroutines each removing its own share of the names with picks in between), and flags a nil from Next while some target was in the list during the whole call; " +
+			"request bodies: 1/3 of the requests with a body-carrying method are sent with UNKNOWN length (a reader net/http cannot size: ContentLength -1 in-process, a chunked upload through the real server; also zero bytes); " +
 			"kinds 1/3/5 draw the configuration: Proxy(balancer) (1/8) or ProxyWithConfig with custom RetryFilter (scripted answers by call, or by HTTPError code), ErrorHandler (maps to 503/418/502 or writes its own answer), Skipper (header based), ContextKey, TargetProvider balancer with scripted errors (HTTPError 503/502/429 or a plain error at NextTarget call 0-2), half of the rules via RegexRewrite, Transport (nil / *http.Transport / logging RoundTripper), a second echo instance sharing the balancer; per request 1/6 absolute-form request target (http/https, host, host:port, IPv6, 1/4 of these with upper-case scheme or userinfo), websocket upgrade through e.ServeHTTP (not hijackable), extension method PROPFIND; " +
 			"non-trivial = (kind 0) a sequence with a successful removal, a retry pick and a wrap-around of the round-robin index, or (kind 1) a scenario in which a request was retried onto another target or a rewrite rule fired; distinct = distinct model op lines",
 		New:            func() any { return &c19Case{} },
